@@ -104,3 +104,83 @@ fn c04_select_operate_header_status() {
     kani::cover!(r.is_err());
     std::mem::forget(db);
 }
+
+/// PrefixWriter into a buffer of symbolic capacity: whatever does not fit is left out COMPLETELY - the count field
+/// always equals the number of objects that are really there (the session sends `cursor.written()` even after a
+/// write error, so a count that ran ahead would put an unparsable response on the wire)
+fn prefix_writer_case<I: crate::app::parse::traits::Index>(idx_size: usize, qualifier: u8, mk: fn(u8) -> I) {
+    use crate::app::variations::Group41Var2;
+    let mut buf = [0xEEu8; 24];
+    let cap: usize = kani::any();
+    kani::assume(cap <= 24);
+    let v: [i16; 3] = kani::any();
+    let ix: [u8; 3] = kani::any();
+    let mut w = crate::outstation::control::prefix::PrefixWriter::<I, Group41Var2>::new();
+    let mut n = 0usize;
+    let len = {
+        let mut cursor = scursor::WriteCursor::new(&mut buf[..cap]);
+        let mut i = 0;
+        while i < 3 {
+            let index = mk(ix[i]);
+            if w.write(&mut cursor, Group41Var2 { value: v[i], status: CommandStatus::Success }, index).is_ok() {
+                // objects are refused only for lack of space, and then all later ones too (same size)
+                assert!(n == i);
+                n += 1;
+            }
+            i += 1;
+        }
+        cursor.written().len()
+    };
+    let hdr = 3 + idx_size;
+    let per = idx_size + 3;
+    // the first object needs the whole header + object; nothing partial is ever left behind
+    let fit = if cap < hdr + per { 0 } else { 1 + (cap - hdr - per) / per };
+    let expect_n = if fit > 3 { 3 } else { fit };
+    assert!(n == expect_n);
+    if n == 0 {
+        assert!(len == 0);
+    } else {
+        assert!(len == hdr + n * per);
+        assert!(buf[0] == 41 && buf[1] == 2 && buf[2] == qualifier);
+        // the count field says exactly how many objects follow
+        assert!(buf[3] as usize == n);
+        if idx_size == 2 {
+            assert!(buf[4] == 0);
+        }
+        let j: usize = kani::any();
+        kani::assume(j < n);
+        let at = hdr + j * per;
+        assert!(buf[at] == ix[j]);
+        if idx_size == 2 {
+            assert!(buf[at + 1] == 0);
+        }
+        let vb = v[j].to_le_bytes();
+        assert!(buf[at + idx_size] == vb[0] && buf[at + idx_size + 1] == vb[1] && buf[at + idx_size + 2] == 0);
+    }
+    kani::cover!(n == 2 && len < cap);
+    kani::cover!(n == 3);
+}
+
+// @harness c09_prefix_writer_truncation_u8
+// @props C09,C04
+// @tier quick
+// @timeout 600
+// @units PrefixWriter<u8, Group41Var2>::{write, write_inner}, WriteCursor::{transaction, at_pos}
+// @bounds three g41v2 objects with arbitrary values and 8-bit indices echoed into a response buffer of ANY remaining capacity 0..=24: the bytes left in the buffer are a complete count-and-prefix header (41 02 17 n) followed by exactly n whole objects, n = what fits, nothing when even one does not
+#[kani::proof]
+#[kani::unwind(5)]
+fn c09_prefix_writer_truncation_u8() {
+    prefix_writer_case::<u8>(1, 0x17, |x| x)
+}
+
+// @harness c09_prefix_writer_truncation_u16
+// @props C09,C04
+// @tier quick
+// @timeout 600
+// @units PrefixWriter<u16, Group41Var2>::{write, write_inner}
+// @bounds as above with 16-bit count and indices (41 02 28 n 00 ...)
+#[kani::proof]
+#[kani::unwind(5)]
+fn c09_prefix_writer_truncation_u16() {
+    prefix_writer_case::<u16>(2, 0x28, |x| x as u16)
+}
